@@ -62,6 +62,13 @@ impl<'h> FindMatchesImpl<'h> {
         }
         self.last_position = 0;
         self.offset = offset;
+        // The last character seen is now the one right before the new offset. It decides whether
+        // the next character starts a new line.
+        self.last_char = self
+            .input
+            .get(..offset)
+            .and_then(|s| s.chars().next_back())
+            .unwrap_or('\0');
     }
 
     /// Returns the next match in the haystack.
